@@ -70,6 +70,7 @@ def distributions(quick):
     out.append(("bnode-graph-name-object-once+more", [[S1, P1, GB, D], T[1] + [D], T[0] + [GB], T[3] + [GB]]))
     out.append(("bnode-graph-name-object-in-named", [[S1, P1, GB, G1], T[0] + [GB]]))
     out.append(("hostile-literals", [[S1, P1, L('q"\\\n\t'), G1], [S1, P1, L("\U0001F600", lang="en"), D], [S1, P2, L("<&>", dt=EX + "dt"), G2]]))
+    out.append(("dot-literals", [[S1, P1, L("wait . what"), G1], [S1, P1, L("x ."), GB], [S1, P2, L(" . "), G2], [S1, P2, L("Dr . No"), D], [S2, P1, L(" ."), G1], [S2, P2, L("a <urn:g> ."), G2]]))
     out.append(("empty-default", [T[0] + [G1], T[1] + [G2]]))
     return out
 
